@@ -185,7 +185,27 @@ type sender interface {
 	SendEmptyRecord(typ uint8) error
 }
 
+var kindName = map[string]string{"CH": "ClientHello", "SH": "ServerHello", "HVR": "HelloVerifyRequest", "Cert": "Certificate",
+	"SKX": "ServerKeyExchange", "CR": "CertificateRequest", "SHD": "ServerHelloDone", "CKX": "ClientKeyExchange",
+	"CV": "CertificateVerify", "Fin": "Finished"}
+
+// coalesced("CKX+Fin") = the handshake messages to put into ONE record (probe syntax, not part
+// of the enumerated alphabet)
+func coalesced(k string) []string {
+	if !strings.Contains(k, "+") {
+		return nil
+	}
+	var out []string
+	for _, p := range strings.Split(k, "+") {
+		out = append(out, kindName[p])
+	}
+	return out
+}
+
 func sendT(s *tlcp.VerifScript, k string) error {
+	if c := coalesced(k); c != nil {
+		return s.SendCoalesced(c...)
+	}
 	switch k {
 	case "CH":
 		return s.Send("ClientHello", nil)
@@ -366,6 +386,9 @@ func primeDTLCP(c caseDesc) *primedD {
 }
 
 func sendD(s *dtlcp.VerifScript, k string) error {
+	if c := coalesced(k); c != nil {
+		return s.SendCoalesced(c...)
+	}
 	switch k {
 	case "CH":
 		return s.Send("ClientHello", nil)
